@@ -61,6 +61,7 @@ Emit == (EmitVec /\ n % Mod = Rem) =>
                                /\ PrintT(<<"VEC", ToJson(TgVec(c, s, 0, IF s % 2 = 0 THEN "dt" ELSE "utc"))>>)
             /\ PrintT(<<"VEC", ToJson(TgVec(c, 86400, 0, "utc"))>>)
             /\ (d = DaysInMonth(IsLeap(y), mo) => PrintT(<<"VEC", ToJson(TgVec(c, 0, 1, "utc"))>>))
+            /\ (d = 1 => PrintT(<<"VEC", ToJson(TgVec(c, 0, -1, "dt"))>>))
 Consts ==
   /\ CDSToW(MinT) = MinTW /\ CDSToW(MaxT) = MaxTW
   /\ InRange(MinT) /\ InRange(MaxT) /\ ~InRange(CAddSec(MinT, -1)) /\ ~InRange(CAddSec(MaxT, 1))
